@@ -68,10 +68,14 @@ class Write:
         return f"W[{self.start}..{self.end}){qs} {self.kind}:{self.payload!r}"
 
 
+REGISTRY = []      # every interpreter created during a check run (cli reports their failed arithmetic obligations)
+
+
 class Interp:
     PATH_CAP = 4096
 
     def __init__(self, facts):
+        REGISTRY.append(self)
         self.F = facts
         self.obligations = []
         self.stack = []
@@ -1412,6 +1416,9 @@ class Interp:
 
     # ------------------------------------------------------------------ loops
     def ev_Loop(self, e, st):
+        r = self.loops.while_let_loop(e, st)
+        if r is not None:
+            return r
         return self.loops.loop(e, st)
 
     # ------------------------------------------------------------------ calls
@@ -1519,6 +1526,8 @@ class Interp:
 
     def apply_fn(self, st, f, args, e):
         """call a function value"""
+        if isinstance(f, PyFn):
+            return f.fn(st, list(args), e)
         if isinstance(f, FnV):
             if f.captures is not None:
                 return self.inline(f.fn, None, st, [f] + list(args), closure=f)
